@@ -809,7 +809,10 @@ ProcDecl:
 ProcBody:
         ProcLocalDeclList States LocFlags Init Transitions
 	| ProcLocalDeclList States Branchpoints LocFlags Init Transitions
-	| /* empty */
+	| /* empty */ {
+	  // a process without any state has no initial location either
+	  utap_error("$Missing_initial_location");
+	}
         ;
 
 ProcLocalDeclList:
